@@ -49,6 +49,10 @@ Proof. revert k i; induction l as [|x l IH]; intros [|k] [|i] H; simpl; auto; tr
 Lemma nth_map_default {A B} (f : A -> B) l k d d' : f d = d' -> nth k (map f l) d' = f (nth k l d).
 Proof. intros <-. apply map_nth. Qed.
 
+Lemma Forall2_cons_inv_l {A B} (R : A -> B -> Prop) a l L :
+  Forall2 R (a :: l) L -> exists b L', L = b :: L' /\ R a b /\ Forall2 R l L'.
+Proof. intros H. inversion H; subst. eauto. Qed.
+
 Section FieldVec.
   Context {F : Type} {I : Fld F} {L : FldLaws F}.
   Add Field FF : (@Fth F I L).
